@@ -4,6 +4,7 @@ import math
 from hypothesis import strategies as st
 
 from vlib import rivals
+from vlib import forms
 from vlib.core import Part, Violation, Discard, call
 from vlib import exprgen as X
 from vlib.models import ScriptedSampler
@@ -25,7 +26,7 @@ RULE = ("Formula/Matrix/Numerical graders with the default equality comparison w
 ASSUMPTIONS = ["the k-th draw of every scripted variable belongs to the k-th sample (one answer alternative, so one "
                "sampling pass per call) - verified by the agreement of 100% of judged cases on the unchanged tree",
                "reference evaluation keeps reals real; cases with intermediates > 1e8 or ill-conditioned are discarded"]
-REQUIRED = {'mid-failures': 150, 'near-boundary': 100, 'pct-asymmetric': 60, 'array': 150, 'exact/identical': 100, 'tight-percentage': 100, 'random-function': 100, 'array/frobenius-vs-max': 40,
+REQUIRED = {'magnitude/square-leaves-float-range': 60, 'mid-failures': 150, 'near-boundary': 100, 'pct-asymmetric': 60, 'array': 150, 'exact/identical': 100, 'tight-percentage': 100, 'random-function': 100, 'array/frobenius-vs-max': 40,
             'exact/dyadic-on': 60, 'exact/dyadic-off': 60, 'rewrite': 100, 'infinity': 60, 'numerical': 60,
             'complex-samples': 80}
 
@@ -62,7 +63,7 @@ def sample_values():
 @st.composite
 def specs(draw):
     kind = draw(st.sampled_from(['poly', 'poly', 'poly', 'scale', 'pct', 'tightpct', 'randfunc', 'rewrite', 'branch', 'identical', 'dyadic',
-                                 'infinity', 'numerical', 'array', 'array']))
+                                 'infinity', 'numerical', 'array', 'array', 'magnitude']))
     real, cplx = sample_values()
     ns = draw(st.integers(1, 8))
     spec = {'kind': kind, 'seed': draw(st.integers(0, 10 ** 6)), 'credit': draw(st.sampled_from([1, 1, 0.5, 0.3])),
@@ -88,6 +89,18 @@ def specs(draw):
         spec['answer'] = draw(st.sampled_from(['x', '2*x+1', 'x^2+y', 'x*y', '3', 'x+y+0.5']))
         spec['xs'] = draw(st.lists(st.sampled_from([0.6, 1.7, 2.5, 1.25, 3.0, 0.8]), min_size=4, max_size=4))
         spec['ys'] = draw(st.lists(st.sampled_from([0.5, 1.5, 2.0, 0.75]), min_size=4, max_size=4))
+        return spec
+    if kind == 'magnitude':
+        # the tolerance rule at every magnitude a float can hold: answers c*10^k for |k| up to 300 (squares of such numbers
+        # overflow beyond 1.3e154 and vanish below 1.5e-162; the rule itself involves no squares for scalars)
+        spec['samples'] = draw(st.integers(1, 3))
+        spec['failable'] = 0
+        spec['c'] = draw(st.sampled_from([1.0, 2.5, -3.0, 7.25, -1.5]))
+        spec['k'] = draw(st.sampled_from([0, 50, 100, 150, 153, 154, 155, 160, 170, 200, 300, 307,
+                                          -50, -100, -150, -160, -161, -162, -163, -170, -200, -300, -306]))
+        spec['tol'] = draw(st.sampled_from(['1%', '10%', '0.01%', '250%', 'abs-small', 'abs-large', 0, '0%']))
+        spec['eps'] = draw(st.sampled_from([0.0, 0.0, 1e-9, 0.004, 0.02, -0.05, 0.3, 1.0, 4.0, -0.5]))
+        spec['grader'] = draw(st.sampled_from(['formula', 'numerical', 'matrix', 'formula-complex']))
         return spec
     if kind in ('dyadic', 'infinity', 'numerical'):
         spec['samples'] = 1 if kind == 'numerical' else draw(st.integers(1, 4))
@@ -258,7 +271,7 @@ def build_grader(cls, answer, spec, samplers=None, **extra):
     else:
         cfg.update(user_functions=LIBF)
     cfg.update(extra)
-    g = cls(**cfg)
+    g = forms.make(cls, cfg)
     rivals.after_build(g)          # vlib/rivals.py: another grader of the same class (50% tolerance, ...) used first
     return g
 
@@ -331,7 +344,7 @@ def judge_randfunc(spec, rec):
     cfg = dict(answers={'expect': a_str, 'grade_decimal': spec['credit']}, tolerance=spec['tol'],
                samples=spec['samples'], failable_evals=spec['failable'],
                user_functions={'f': RandomFunction(), 'h': RandomFunction(input_dim=2)})
-    g = FormulaGrader(**cfg)
+    g = forms.make(FormulaGrader, cfg)
     rivals.after_build(g)          # vlib/rivals.py: another FormulaGrader (50% tolerance, 2 samples, ...) used first
     k, r = grade(g, s_str, spec)
     rec.calls()
@@ -358,6 +371,8 @@ def judge(spec, rec):
         return judge_infinity(spec, rec)
     if kind == 'numerical':
         return judge_numerical(spec, rec)
+    if kind == 'magnitude':
+        return judge_magnitude(spec, rec)
     E = envs(spec)
     samplers = {'x': ScriptedSampler(values=[complex(*x) if x[1] else float(x[0]) for x in spec['xs']]),
                 'y': ScriptedSampler(values=[float(y[0]) for y in spec['ys']])}
@@ -510,6 +525,54 @@ def judge_dyadic(spec, rec):
     rec.cls('exact/dyadic-off' if spec['off'] else 'exact/dyadic-on')
     rec.nontrivial()
     return {'answer': a_str, 'student': s_str, 'tol': t, 'grade': gd(k, r)}
+
+
+def judge_magnitude(spec, rec):
+    e = float('%re%d' % (spec['c'], spec['k']))
+    s_ = e * (1 + spec['eps'])
+    if not (0 < abs(e) < 1e308 and abs(s_) < 1e308):
+        raise Discard('magnitude/not-finite')
+    tol = spec['tol']
+    if tol == 'abs-small':
+        tol = abs(e) * 1e-3          # an absolute tolerance of the answer's own order of magnitude (a plain number)
+    elif tol == 'abs-large':
+        tol = abs(e) * 0.5
+    if spec['grader'] == 'matrix':
+        ev, sv = [e, 2 * e], [s_, 2 * e]
+        a_str, s_str = '[%r, %r]' % (e, 2 * e), '[%r, %r]' % (s_, 2 * e)
+    elif spec['grader'] == 'formula-complex':
+        ev, sv = complex(e, e), complex(s_, e)
+        a_str, s_str = '%r+%r*i' % (e, e), '%r+%r*i' % (s_, e)
+        a_str, s_str = a_str.replace('+-', '-'), s_str.replace('+-', '-')
+    else:
+        ev, sv = e, s_
+        a_str, s_str = repr(e), repr(s_)
+    # reference: the rule itself, with norms computed without squaring (scaled by the largest entry)
+    def snorm(v):
+        vs = v if isinstance(v, list) else [v]
+        m = max(abs(x) for x in vs)
+        return m * math.sqrt(sum(abs(x / m) ** 2 for x in vs)) if m else 0.0
+    d = snorm([a - b for a, b in zip(ev, sv)] if isinstance(ev, list) else ev - sv)
+    t = tol_of(tol, snorm(ev))
+    if d != 0 and abs(d - t) <= 1e-6 * max(t, d):
+        raise Discard('guard-band')
+    miss = d > t
+    cls = {'formula': FormulaGrader, 'formula-complex': FormulaGrader, 'numerical': NumericalGrader,
+           'matrix': MatrixGrader}[spec['grader']]
+    sp = dict(spec, tol=tol)
+    g = build_grader(cls, a_str, sp)
+    k, r = grade(g, s_str, sp)
+    rec.calls()
+    want = 0 if miss else spec['credit']
+    check_grade(sp, k, r, want, '%s answer %s student %s tolerance %r (|difference| %r, allowed %r)' % (
+        cls.__name__, a_str, s_str, tol, d, t), rec,
+        'magnitude/%s' % ('accepted-beyond-tolerance' if miss else 'rejected-within-tolerance'))
+    rec.cls('magnitude/judged')
+    if abs(e) > 1.4e154 or abs(e) < 1.4e-162:
+        rec.cls('magnitude/square-leaves-float-range')
+    if abs(spec['k']) >= 150:
+        rec.nontrivial()
+    return {'answer': a_str, 'student': s_str, 'tol': tol, 'grade': gd(k, r)}
 
 
 INF = float('inf')
